@@ -56,8 +56,8 @@ SPEC = open(__file__.replace('opt.py', 'opt_spec.rs')).read()
 def types_from_repo():
     t = []
     wid = extract_item('circuit/src/types.rs', r'pub struct WitnessId\b')
-    t.append('#[derive(Clone, Copy, PartialEq, Eq, Hash)]\n' + wid)
-    t.append('#[derive(Clone, Copy, PartialEq, Eq, Hash)]\n' + extract_item('circuit/src/ops/op.rs', r'pub enum AluOpKind\b'))
+    t.append('#[derive(Clone, Copy, PartialEq, Eq, Hash, Structural)]\n' + wid)
+    t.append('#[derive(Clone, Copy, PartialEq, Eq, Hash, Structural)]\n' + extract_item('circuit/src/ops/op.rs', r'pub enum AluOpKind\b'))
     op = extract_item('circuit/src/ops/op.rs', r'pub enum Op<F>')
     t.append('#[verifier::reject_recursive_types(F)]\n' + op)
     ak = extract_item('circuit/src/builder/compiler/optimizer/analysis.rs', r'pub\(super\) struct AluKey\b')
@@ -196,5 +196,88 @@ def build():
     a.loop('for wo in wo_it: 0..g.len()', invariants=inner_inv('wo'))
     u.text('verus! {\nimpl<F> Op<F> {')
     u.emit(a)
+    u.text('}\n}')
+
+    # ------------------------------------------------------------ Deduplicator
+    D = 'circuit/src/builder/compiler/optimizer/dedup.rs'
+    n = u.extract(D, r'impl Deduplicator', 'new', 'Deduplicator::new')
+    n.sig_rewrite('R12', '-> Self', '-> Deduplicator')
+    n.rewrite_re('R12', r'\bSelf\s*\{', 'Deduplicator {')
+    n.ensures('fresh', 'ret.rewrite@ == Map::<WitnessId, WitnessId>::empty() && ret.seen@ == Map::<AluKey, WitnessId>::empty()')
+
+    d = u.extract(D, r'impl Deduplicator', 'detect_duplicate', 'Deduplicator::detect_duplicate')
+    d.sig_rewrite('R11', '<F: Field>', '<F>')
+    cl = 'requires acyclic(self.rewrite@) ensures r == root(self.rewrite@, id)'
+    d.annotate_closure('|id| id.resolve(&self.rewrite)', 'id: WitnessId', 'r: WitnessId', cl, nth=1)
+    d.annotate_closure('|id| id.resolve(&self.rewrite)', 'id: WitnessId', 'r: WitnessId', cl, nth=0)
+    d.rewrite('R1', 'if let Some(&canonical) = self.seen.get(&key) { Some((*out, canonical)) }',
+              'if let Some(canonical) = self.seen.get(&key) { Some((*out, *canonical)) }')
+    d.requires('acyclic', 'acyclic(old(self).rewrite@)')
+    d.ensures('rewrite_untouched', 'final(self).rewrite@ == old(self).rewrite@')
+    d.ensures('non_alu_passes', '!is_alu(*op) ==> ret.is_none() && final(self).seen@ == old(self).seen@')
+    d.ensures('alu_lookup', '''*op matches Op::Alu { kind, a, b, c, out, intermediate_out } ==> ({
+            let rw = old(self).rewrite@;
+            let key = key_of(kind, root(rw, a), root(rw, b), omap(c, rootf(rw)), omap(intermediate_out, rootf(rw)));
+            if old(self).seen@.contains_key(key) {
+                ret == Some((out, old(self).seen@[key])) && final(self).seen@ == old(self).seen@
+            } else {
+                ret.is_none() && final(self).seen@ == old(self).seen@.insert(key, out)
+            }
+        })''')
+
+    r = u.extract(D, r'impl Deduplicator', 'run', 'Deduplicator::run')
+    r.sig_rewrite('R11', '<F: Field>', '<F>')
+    r.sig_rewrite('R2', 'mut self', 'self')
+    r.rewrite_re('R2', r'\bself\.', 'self_.', min_count=4)
+    r.at_start('let mut self_ = self;')
+    r.requires('fresh', 'self.rewrite@ == Map::<WitnessId, WitnessId>::empty() && self.seen@ == Map::<AluKey, WitnessId>::empty()')
+    r.requires('wf_ops', 'forall|k: int| 0 <= k < ops@.len() ==> wf_op(#[trigger] ops@[k])')
+    r.ensures('acyclic', 'acyclic(ret.1@)')
+    r.ensures('no_relation_dropped', 'all_covered(ops@, ret.0@, ret.1@)')
+    r.ensures('kept_slots_are_roots', 'forall|x: WitnessId| list_mentions(ret.0@, x) ==> !ret.1@.dom().contains(x)')
+    r.after('let mut result = Vec::with_capacity(ops.len());', '''
+        let ghost ops0 = ops@;
+        let ghost mut seen_idx: Map<AluKey, int> = Map::empty();
+        let ghost mut cover: Seq<int> = Seq::empty();
+        proof { lemma_acyclic_empty(); }
+    ''')
+    r.rewrite('SPEC-iter-name', 'for mut op in ops {', 'for mut op in it: ops {')
+    r.loop('for mut op in it: ops', invariants=[
+        ('seq', 'it.seq() == ops0'),
+        ('inv', 'inv(ops0, it.index@ as int, result@, self_.rewrite@, self_.seen@, seen_idx, cover)'),
+    ])
+    r.after('op.apply_witness_rewrite(&self_.rewrite);', 'let ghost op1 = op; let ghost i = it.index@ as int; let ghost rw = self_.rewrite@; let ghost seen0 = self_.seen@; let ghost res0 = result@;')
+    r.before('let root = canonical.resolve(&self_.rewrite);', '''proof {
+                lemma_key_of_rewritten(rw, ops0[i], op1);
+                lemma_dup_facts(ops0, i, result@, rw, seen0, seen_idx, cover, op1);
+            }''')
+    r.before('self_.rewrite.insert(dup_out, root);', '''proof {
+                    // H: the duplicate's out slot is mentioned by no kept op.  NOT established by the code: see known_findings.json (C03-alias)
+                    assert(dup_out != root ==> !list_mentions(result@, dup_out)); // @@A:H_dup_out_unmentioned
+                }''')
+    r.before('continue;', '''proof {
+                if dup_out != root { lemma_inv_dup_insert(ops0, i, result@, rw, seen0, seen_idx, cover, op1); }
+                else { lemma_inv_dup_same(ops0, i, result@, rw, seen0, seen_idx, cover, op1); }
+                cover = cover.push(seen_idx[alu_key(op1)]);
+            }''')
+    r.rewrite('R3', 'continue; } result.push(op);', '} else { result.push(op); }')
+    r.after('result.push(op);', '''proof {
+                if is_alu(op1) { lemma_key_of_rewritten(rw, ops0[i], op1); }
+                lemma_inv_push(ops0, i, res0, rw, seen0, seen_idx, cover, op1, self_.seen@);
+                assert(res0.push(op1) =~= result@);
+                if self_.seen@ != seen0 { seen_idx = seen_idx.insert(alu_key(op1), result@.len() - 1); }
+                cover = cover.push(result@.len() - 1);
+            }''')
+    r.at_end_expr('(result, self_.rewrite)', '''proof {
+            assert(cover.len() == ops0.len());
+            assert forall|k: int| 0 <= k < ops0.len() implies covered_by_some(#[trigger] ops0[k], result@, self_.rewrite@) by {
+                assert(covered(ops0[k], result@[cover[k]], rootf(self_.rewrite@)));
+            }
+            assert(all_covered(ops0, result@, self_.rewrite@));
+        }''')
+    u.text('verus! {\nimpl Deduplicator {')
+    u.emit(n)
+    u.emit(d)
+    u.emit(r)
     u.text('}\n}')
     return u
